@@ -19,6 +19,8 @@ import (
 	"fmt"
 	"math/big"
 	"os"
+	"sync"
+	"sync/atomic"
 	"testing"
 
 	"github.com/MinterTeam/minter-go-node/coreV2/state"
@@ -332,4 +334,86 @@ func queryLoad(t *rapid.T, h *history, crowd int) func() {
 	}
 	sim.S.Label("query-load/histories")
 	return func() { tree.VerifCommitWindow = nil }
+}
+
+// TestC25FreshAccounts: blocks that credit many addresses the state has never seen, while reader
+// goroutines ask for the balance and nonce of exactly those addresses (what a wallet does while it
+// waits for its first incoming transfer). A twin executes the same blocks without readers; every
+// response and app hash must agree.
+func TestC25FreshAccounts(t *testing.T) {
+	defer checksDividedBy(4)()
+	rapid.Check(t, func(t *rapid.T) {
+		wo := sim.DefaultOpts()
+		wo.MaxPools, wo.MaxTokens, wo.MaxBancor = 1, 1, 1
+		h := newHistory(t, wo, sim.GeneralProfile(), sim.BlockOpts{MaxTxs: 0})
+		n, r, w := h.N, h.R, h.W
+		h.G.Detached = true
+		twin := sim.NewNode(w)
+		twin.Name = "twin"
+		r.Mirrors = []*sim.Node{twin}
+		nFresh := 16 + sim.U(t, "nFresh", 48)
+		fresh := make([]types.Address, nFresh)
+		for i := range fresh {
+			fresh[i] = types.Address{0xF0, 0x0D, byte(sim.U(t, "freshSalt", 250)), byte(i >> 8), byte(i)}
+		}
+		var stop int32
+		var wg sync.WaitGroup
+		for gi := 0; gi < 4; gi++ {
+			wg.Add(1)
+			go func(id int) {
+				defer wg.Done()
+				for i := id; atomic.LoadInt32(&stop) == 0; i++ {
+					func() {
+						defer func() { _ = recover() }()
+						cs := n.App.CurrentState()
+						a := fresh[i%len(fresh)]
+						if i%3 == 0 {
+							cs.Accounts().GetNonce(a)
+						} else {
+							cs.Accounts().GetBalance(a, 0)
+						}
+					}()
+				}
+			}(gi)
+		}
+		finish := func() { atomic.StoreInt32(&stop, 1); wg.Wait() }
+		sent := 0
+		r.H.AfterBegin = func(sim.BlockReq) {
+			// every funded user sends to the next fresh addresses
+			for i := 0; i < w.NUsers && sent < nFresh; i++ {
+				u := sim.GetUser(i)
+				if h.G.Balance(u.Addr, 0).Cmp(sim.Bip(100)) < 0 {
+					continue
+				}
+				k := 1 + sim.U(t, "perUser", 6)
+				for j := 0; j < k && sent < nFresh; j++ {
+					raw := sim.SignedSend(w, u, h.G.Nonce(u.Addr)+1, fresh[sent], 0, big.NewInt(int64(1+sim.U(t, "amount", 1000000))), 0, 1)
+					if !r.Deliver(&sim.TxMeta{Raw: raw, Kind: "send-to-fresh", Sender: u.Addr, Payer: u.Addr, GasPrice: 1}) {
+						finish()
+						if r.Divergence != "" {
+							violation(t, "c25-perturbed", r, "a balance query for an address the state had never seen changed block execution: %s", trunc(r.Divergence, 2000))
+						}
+						violation(t, "c25-panic-under-load", r, "%s", r.PanicReport())
+					}
+					sent++
+				}
+			}
+		}
+		for b := 0; b < 6 && sent < nFresh && !r.Halted; b++ {
+			if !r.Block(t) {
+				finish()
+				if r.Divergence != "" {
+					diff := sim.DiffTrees(n.TreeDump(), twin.TreeDump())
+					if len(diff) > 6 {
+						diff = diff[:6]
+					}
+					violation(t, "c25-perturbed", r, "a balance query for an address the state had never seen changed block execution: %s\nstate tree differences (queried node vs twin): %v", trunc(r.Divergence, 2000), diff)
+				}
+				violation(t, "c25-panic-under-load", r, "%s", r.PanicReport())
+			}
+		}
+		finish()
+		sim.S.LabelN("C25/fresh-accounts/credited", sent)
+		sim.S.Case("TestC25FreshAccounts", sent > 8, sim.HashStrings(r.Steps), func() interface{} { return sim.HistorySample(r.Steps, 12) })
+	})
 }
